@@ -23,7 +23,7 @@ GEN = os.path.join(LEAN, "NfcVerif", "Gen")
 MODULE = "NfcVerif.Props.ExcFlow"          # common part; one module per group below
 MODULES = {"Tags": MODULE + "Tags", "Ndef": MODULE + "Ndef", "Drivers": MODULE + "Drivers", "Clf": MODULE + "Clf",
            "Llc": MODULE + "Llc", "Dep": MODULE + "Dep", "Sock": MODULE + "Sock",
-           "Clients": MODULE + "Clients", "Discovery": MODULE + "Discovery"}
+           "Clients": MODULE + "Clients", "Discovery": MODULE + "Discovery", "Transport": MODULE + "Transport"}
 NS = "NfcVerif.ExcFlowProps."
 
 # proved once for all programs (Lemmas/ExcFlow.lean); audited with every group
@@ -146,6 +146,17 @@ GROUPS = {
                      "driver_internal_classes_leave_discovery", "clf_sense_listen_internal_classes",
                      "clf_sense_absorbs_commerror", "udp_discovery_raises_commerror", "listen_returns_none_when_peer_silent",
                      "dep_activate_stack_escapes", "clf_connect_internal_classes"],
+    },
+    "transport": {
+        "module": MODULES["Transport"],
+        "properties": ["C13", "C14"],
+        "what": "nfc/clf/transport.py with the primitive assumption at pyserial / libusb1 (serial.SerialException - an IOError - "
+                "and any usb1.USBError subclass): only IOError leaves TTY.read/write/open/close and USB.read/write/close - the "
+                "assumption `self.transport.*: OSError` of the drivers group proved of the translated transports; a raw "
+                "USBError DOES leave USB.open / USB.__init__ (stated)",
+        "theorems": ["transportAll_ok", "transportOnly_ok", "transportNever_ok", "transportCan_ok", "transport_read_escapes",
+                     "transport_write_escapes", "transport_close_escapes", "tty_open_escapes", "transport_maps_library_errors",
+                     "transport_can_fail", "usb_open_escapes", "usb_open_raises_usberror"],
     },
 }
 for _d in GROUPS.values():                       # fully qualified, as `Check.lean` wants them
